@@ -8,6 +8,7 @@ import (
 	"os"
 	"os/exec"
 	"path/filepath"
+	"runtime/debug"
 	"sort"
 	"strconv"
 	"strings"
@@ -70,6 +71,14 @@ func main() {
 		fmt.Printf("wrote %d function fingerprints to %s\n", len(fp), refFile)
 		return
 	}
+	// The inline view (engine/inline.go: fold new single-call-site helpers back into their caller for path
+	// queries) is experimental: on the behaviour-preserving variants it removes some alarms and adds others
+	// (DESIGN.md 8.9), so it is off unless asked for.
+	if err == nil && os.Getenv("MCVET_INLINE") != "" {
+		for _, h := range p.BuildInlineView() {
+			fmt.Printf("INLINED new single-call-site helper %s\n", h)
+		}
+	}
 	for now, ref := range engine.Renamed {
 		fmt.Printf("RENAMED %s is analysed under its reference name %s\n", engine.Short(now), engine.Short(ref))
 	}
@@ -119,6 +128,9 @@ func main() {
 		func() {
 			defer func() {
 				if e := recover(); e != nil {
+					if os.Getenv("MCVET_DEBUG") != "" {
+						fmt.Printf("%s\n", debug.Stack())
+					}
 					r.Fail("engine", "panic", "-", "undecided", fmt.Sprintf("analyser panic: %v", e))
 				}
 			}()
